@@ -149,6 +149,12 @@ def run(ctx):
     ok = ctx.prove('Props/C03.v')
     if ctx.tier == 'thorough' and ok:
         ctx.coqchk('Props/C03.v')
+    # the harness module is outside the cone of Props/C03.v (no theorem uses it): build it here
+    with core.BuildLock():
+        core.ensure_makefile()
+        rc, out = core.sh(['timeout', '600', 'make', '-C', core.COQ, '-j%d' % core.JOBS, 'Model/ReqHarness.vo'], timeout=660)
+    if rc != 0:
+        ctx.proof_broken.append(('model-build:ReqHarness', out[-800:]))
     cases = corpus_cases() + generate_cases(ctx)
     ctx.rule = ('complete presence lattice of optional fields per request kind and protocol version (values sampled from boundary '
                 'pools), envelope lattice (tracing x beta x compression x payload), plus a boundary/malformed stream; '
